@@ -461,7 +461,7 @@ charnos_tail = Unit(
     ghost=dict(TEXT_GHOST, charpos=g_charpos, gap=g_gap,
                has_end="lambda n: hasattr(n, 'end_lineno') and n.end_lineno is not None",
                isdef="lambda n: isinstance(n, (ast.ClassDef, ast.FunctionDef, ast.AsyncFunctionDef))",
-               is_string="lambda n: isinstance(n, ast.Constant) and isinstance(n.value, str)", **WF),
+               is_string="lambda n: isinstance(n, ast.JoinedStr) or (isinstance(n, ast.Constant) and isinstance(n.value, str))", **WF),
     attrs=dict(NODE_ATTRS, value="obj"), records=REC, props=("C13", "C04"),
     exc_mode={"IndexError": "oblige", "TypeError": "oblige", "ValueError": "oblige"},
 )
